@@ -67,11 +67,12 @@ type Program struct {
 	Tolerant    []TolerantUse // uses of the unbound identifier zz
 	Failing     string        // non-empty: a generated statement that fails on its own (kind)
 	FailLine    int
-	FailAltLine int      // see Site.AltLine
-	FailMarker  *Site    // nested natural failure: a probe evaluated in the same tag just before the failing operation (tells whether it ran)
-	Names       []string // every name the generator made up (let / loop / function variables)
-	Broken      string   // non-empty: the program contains this syntactically broken tag
-	BrokenLine  int      // ... which begins on this line of the main template
+	FailAltLine int                               // see Site.AltLine
+	FailMarker  *Site                             // nested natural failure: a probe evaluated in the same tag just before the failing operation (tells whether it ran)
+	Names       []string                          // every name the generator made up (let / loop / function variables)
+	CtxMaps     map[string]map[string]interface{} // context variables the program expects: option maps for partial() that come from the CALLER's data
+	Broken      string                            // non-empty: the program contains this syntactically broken tag
+	BrokenLine  int                               // ... which begins on this line of the main template
 }
 
 // TolerantUse is one place where the never-bound identifier zz was written.
@@ -1047,7 +1048,41 @@ func (g *gen) piece(depth int) {
 	g.nl()
 }
 
+// longElseIfPiece: a chain of many else-if branches with small bodies, mostly false conditions, and an else
+// (lengths around powers of two: slices of branches with and without spare capacity)
+func (g *gen) longElseIfPiece() {
+	g.feat("long_else_if_chain")
+	n := []int{3, 4, 5, 6, 7, 9}[g.intn("nelseiflong", 0, 5)]
+	taken := g.intn("takenbranch", 0, n+1) // 0: the if, 1..n: that else-if, n+1: the else
+	cond := func(i int) string {
+		if i == taken {
+			return []string{"n1 == n1", "b1", "n2 > 0"}[g.intn("truecond", 0, 2)]
+		}
+		return []string{"n1 == 99", "b0", "n2 < 0", "s1 == \"no\""}[g.intn("falsecond", 0, 3)]
+	}
+	g.frames = 0
+	g.tag(g.outTag(), "if ("+cond(0)+") {", "%>")
+	g.cur.write("branch0")
+	for i := 1; i <= n; i++ {
+		g.tag("<%", "} else if ("+cond(i)+") {", "%>")
+		g.cur.write(fmt.Sprintf("branch%d", i))
+		if g.pct("elseifnl", 30) {
+			g.cur.write("\n")
+		}
+	}
+	if g.pct("longelse", 80) {
+		g.tag("<%", "} else {", "%>")
+		g.cur.write("otherwise")
+		g.tag("<%=", "n1", "%>")
+	}
+	g.tag("<%", "}", "%>")
+}
+
 func (g *gen) ifPiece(depth int) {
+	if g.pct("longelseif", 8) {
+		g.longElseIfPiece()
+		return
+	}
 	g.feat("if")
 	open := g.outTag()
 	g.frames = 0
@@ -1566,7 +1601,22 @@ func (g *gen) partialPiece(depth int) {
 	}
 	arg := "{" + data + "}"
 	twice := false
-	if g.inFn == 0 && g.pct("partialvar", 25) {
+	if g.pct("partialctxvar", 12) {
+		// the data is a map the CALLER put into the context (the same Go map object every time the caller re-uses
+		// its data): plush must treat it as read-only
+		g.feat("partial_data_from_context_variable")
+		cv := g.fresh("copts")
+		m := map[string]interface{}{"pa": 40 + g.intn("ctxpa", 0, 9), "ps": "from-the-caller"}
+		if layout != "" {
+			m["layout"] = layout
+		}
+		if g.p.CtxMaps == nil {
+			g.p.CtxMaps = map[string]map[string]interface{}{}
+		}
+		g.p.CtxMaps[cv] = m
+		arg = cv
+		twice = g.inFn == 0 && g.pct("partialtwice", 50)
+	} else if g.inFn == 0 && g.pct("partialvar", 25) {
 		// the data is a map held in a VARIABLE (not a literal evaluated afresh per call), and the same map object
 		// reaches partial() twice: the partial and its layout must render the same both times
 		g.feat("partial_data_from_variable")
